@@ -29,6 +29,10 @@ def np_ceil(eng, args, kwargs, node):
     if not is_sym(v):
         import math
         return Fraction(math.ceil(Fraction(v)))
+    if v.t == REAL and v.ratio is not None:
+        from .engine import ratio_ceil
+        c = ratio_ceil(v)
+        return Sym(z3.ToReal(c), REAL, (c, z3.IntVal(1)))
     return Sym(z3.ToReal(zceil(_real(eng, v))), REAL)
 
 
@@ -37,6 +41,10 @@ def np_floor(eng, args, kwargs, node):
     if not is_sym(v):
         import math
         return Fraction(math.floor(Fraction(v)))
+    if v.t == REAL and v.ratio is not None:
+        from .engine import ratio_floor
+        c = ratio_floor(v)
+        return Sym(z3.ToReal(c), REAL, (c, z3.IntVal(1)))
     return Sym(z3.ToReal(zfloor(_real(eng, v))), REAL)
 
 
@@ -45,6 +53,9 @@ def math_ceil(eng, args, kwargs, node):
     if not is_sym(v):
         import math
         return math.ceil(Fraction(v))
+    if v.t == REAL and v.ratio is not None:
+        from .engine import ratio_ceil
+        return Sym(ratio_ceil(v), INT)
     return Sym(zceil(_real(eng, v)), INT)
 
 
@@ -53,6 +64,9 @@ def math_floor(eng, args, kwargs, node):
     if not is_sym(v):
         import math
         return math.floor(Fraction(v))
+    if v.t == REAL and v.ratio is not None:
+        from .engine import ratio_floor
+        return Sym(ratio_floor(v), INT)
     return Sym(zfloor(_real(eng, v)), INT)
 
 
